@@ -31,7 +31,6 @@ def labellers():
 
 
 def _lab_cfgs(tier):
-    sys.path.insert(0, '/repo')
     return [dict(name=name, d=d, kind=k) for name, f, n in labellers() for d in (2, 3) for k in ('ndarray', 'PointCloud', 'LabelledPointUndirectedGraph')
             if not (d == 3 and k != 'ndarray' and tier == 'quick')]
 
